@@ -50,6 +50,8 @@ PLACEMENTS = [
     ("reference-of", "    let _r = &{E};\n"),
     ("match-guard", "    match n {{\n        0 if {E}.is_ok() => {{}}\n        _ => {{}}\n    }}\n"),
     ("for-iterator-expression", "    for _x in {E} {{\n    }}\n"),
+    ("let-else-initialiser", "    let Ok(()) = {E} else {{\n        return;\n    }};\n"),
+    ("let-else-diverging-block", "    let Some(_v) = maybe(n) else {{\n        {E}.ok();\n        return;\n    }};\n"),
 ]
 RECEIVERS = [
     ("app-var", "app", "app: AppHandle"),
